@@ -14,11 +14,17 @@ def tie_free_instance(rng, metric, nmax):
     n = rng.randint(3, nmax)
     dom = T.domain(metric)
     dim = rng.randint(1, 4)
+    zeros = dim >= 2 and rng.random() < 0.4
     for _ in range(60):
         if dom == "real" and metric != "hamming":
             X = [[rng.uniform(-10, 10) for _ in range(dim)] for _ in range(n)]
         else:
             X = [[rng.uniform(0.05, 9) for _ in range(dim)] for _ in range(n)]
+        if zeros:
+            # exact zeros in the rows (raw counts, sparse features): legal for every non-negative domain
+            X = [[0.0 if rng.random() < 0.3 else v for v in r] for r in X]
+            if any(sum(r) == 0 for r in X):
+                continue
         if dom == "prob":
             X = [[v / sum(r) for v in r] for r in X]
         try:
@@ -26,9 +32,10 @@ def tie_free_instance(rng, metric, nmax):
         except ZeroDivisionError:
             continue
         offd = [D[a][b] for a in range(n) for b in range(a + 1, n)]
-        sym = all(D[a][b] == D[b][a] for a in range(n) for b in range(n))
-        zs = all(D[a][a] == 0 for a in range(n))
-        if all(v == v for v in offd) and len(set(offd)) == len(offd) and min(offd) > 0 and sym and zs:
+        sym = all(D[a][b] == D[b][a] for a in range(n) for b in range(a + 1, n))
+        # eligibility (symmetric, non-negative, zero self-distance) is the axiom table's claim about the metric, not a
+        # measurement: only the tie-freeness of the DATA is filtered here, on the off-diagonal entries
+        if all(v == v for v in offd) and len(set(offd)) == len(offd) and min(offd) > 0 and sym:
             return Instance("feat", X, gen_labels(rng, n), D, 0, 0, metric)
     return None
 
@@ -63,9 +70,13 @@ def main(tier, seed):
                 continue
             stats["sup"] += 1; stats["metrics_used"][metric] = stats["metrics_used"].get(metric, 0) + 1
             rep.count_case(it.key(), True)
-            rk = ranker_for(it)
-            terms.append(term_fit(it, rk)); expect.append(supcheck.safe_dump(st, rk)); insts.append(it)
+            nan_self = [a for a in range(it.n) if it.D[a][a] != it.D[a][a]]
+            if not nan_self:
+                rk = ranker_for(it)
+                terms.append(term_fit(it, rk)); expect.append(supcheck.safe_dump(st, rk)); insts.append(it)
             msg = None
+            if nan_self:
+                msg = "d(x, x) is NaN for training row %d (the axiom table lists %s as a dissimilarity with zero self-distance)" % (nan_self[0], metric)
             if st["plabel"] != it.labels:
                 q = [i for i in range(it.n) if st["plabel"][i] != it.labels[i]][0]
                 msg = "training sample %d was assigned label %d, its true label is %d" % (q, st["plabel"][q], it.labels[q])
